@@ -368,3 +368,19 @@ impl RtpsWriterProxy {
     )
   }
 }
+
+// Verification hooks (C02): read-only digest of the reception state.
+#[cfg(rustdds_verif)]
+impl RtpsWriterProxy {
+  /// (ack_base, keys of `changes` that are >= ack_base)
+  pub(crate) fn verif_c02_digest(&self) -> (i64, Vec<i64>) {
+    (
+      i64::from(self.ack_base),
+      self
+        .changes
+        .range(self.ack_base..)
+        .map(|(sn, _)| i64::from(*sn))
+        .collect(),
+    )
+  }
+}
